@@ -252,6 +252,38 @@ func c17units(tier string) []mc.Unit {
 			}})
 		}
 	}
+	// orders 5 and 6 (1028 and 4101 letters, more than a thousand barcode slots): every single ban of length 2..3
+	for _, n := range []int{5, 6} {
+		for _, length := range []int{n, n + 1, n + 2} {
+			n, length := n, length
+			us = append(us, mc.Unit{Name: fmt.Sprintf("barcodes-many-slots/n=%d/len=%d", n, length), Weight: 80, Run: func(r *mc.Recorder) {
+				seq := primers.NucleobaseDeBruijnSequence(n)
+				if c17deBruijnOK(seq, n) != "" {
+					r.Skip(1)
+					return
+				}
+				var cnt int64
+				for _, ban := range append([]string{""}, pool...) {
+					var banned []string
+					if ban != "" {
+						banned = []string{ban}
+					}
+					var got []string
+					cas := fmt.Sprintf("order=%d length=%d banned=%v filters=[]", n, length, banned)
+					if p := catch(func() { got = primers.CreateBarcodesWithBannedSequences(length, n, banned, nil) }); p != "" {
+						r.Failf("no-panic", cas, nil, "a list", "panic: "+p)
+						continue
+					}
+					cnt++
+					c17judge(r, cas, []string{fmt.Sprintf("bans=%d", len(banned))}, seq, n, length, banned, nil, got)
+				}
+				r.Eval(cnt)
+				r.AddStates(cnt)
+				r.AddTransitions(cnt)
+				r.AddNontrivial(cnt)
+			}})
+		}
+	}
 	if tier == "thorough" {
 		for n := 5; n <= 8; n++ {
 			n := n
